@@ -1,7 +1,7 @@
 (* C01 — Task group join: no child outlives its task group block.
    This file contains only statements closed by `exact` and their Print Assumptions.
    `reach s` = s is the state after some op list run from `init` (every program, every schedule). *)
-From AV Require Import Base Machine GroupInv GroupThms GroupThms4 GroupThms5 GroupThms7.
+From AV Require Import Base Machine GroupInv GroupThms GroupThms4 GroupThms5 GroupThms7 GroupThms10.
 
 (* the step at which __aexit__ of group g returns/raises (ghost flag g_left flips): every task ever spawned into g
    is done and its task_done callback has run — for EVERY op sequence *)
@@ -41,7 +41,7 @@ Print Assumptions C01_no_step_after_done.
 
 (* done / task_done-ran / coroutine outcome are never retracted; group, handle scope, event, start future are fixed *)
 Theorem C01_task_facts_stable : forall s o, reach s ->
-  ntask s <= ntask (fst (step s o)) /\
+  (ntask s <= ntask (fst (step s o)) /\ ngroup s <= ngroup (fst (step s o))) /\
   forall t, t < ntask s ->
     k_group (tasks (fst (step s o)) t) = k_group (tasks s t) /\
     k_hscope (tasks (fst (step s o)) t) = k_hscope (tasks s t) /\
@@ -73,3 +73,29 @@ Theorem C01_done_child_finished_or_never_started : forall s t, reach s -> k_grou
   (k_final (tasks s t) = None /\ exists e, k_done (tasks s t) = Some (OCanc e)).
 Proof. exact done_child_finished_or_never_started. Qed.
 Print Assumptions C01_done_child_finished_or_never_started.
+
+(* ---- state form, for op sequences that respect the `async with create_task_group()` discipline ----
+   disciplined ops = every op satisfies GroupThms10.okop in the state in which it is issued:
+   AEnter only on scopes that are not a task group's cancel_scope; AGroupEnter only on existing groups;
+   AGroupExit t g only by the host of the group's active scope with that scope on top of t's scope stack.
+   Every other op (spawn from anywhere, cancel anything, any schedule, native cancellation) is unrestricted.
+   Without the discipline the statement is false: GroupThms7.group_exit_joins_all_refuted_*. *)
+Theorem C01_group_exit_joins_all : forall ops g, disciplined ops = true ->
+  g_left (groups (final step init ops) g) = true ->
+  g_tasks (groups (final step init ops) g) = [] /\
+  forall t, In t (g_ever (groups (final step init ops) g)) ->
+    k_done (tasks (final step init ops) t) <> None /\ k_tdran (tasks (final step init ops) t) = true.
+Proof. exact group_exit_joins_all_ops. Qed.
+Print Assumptions C01_group_exit_joins_all.
+
+Theorem C01_no_spawn_after_left : forall ops o g, disciplined ops = true ->
+  g_left (groups (final step init ops) g) = true -> okop (final step init ops) o = true ->
+  g_ever (groups (fst (step (final step init ops) o)) g) = g_ever (groups (final step init ops) g) /\
+  g_left (groups (fst (step (final step init ops) o)) g) = true.
+Proof. exact no_spawn_after_left_ops. Qed.
+Print Assumptions C01_no_spawn_after_left.
+
+Theorem C01_left_group_is_inactive : forall ops g, disciplined ops = true ->
+  g_left (groups (final step init ops) g) = true -> group_active (final step init ops) g = false.
+Proof. exact left_group_is_inactive_ops. Qed.
+Print Assumptions C01_left_group_is_inactive.
